@@ -3,7 +3,7 @@
    TLC-generated histories on the real engine (privilege database enabled), one event per line:
 
      reset   st                       a new history starts in the abstract state st
-     step    act ret msg st           the step as real SQL (run as root, SET ROLE in the user's own
+     step    act ret msg st           the step as real SQL (run by a super user, SET ROLE in the user's own
                                       session); ret = ok | error | denied | panic; st = the engine's
                                       stored access-control state read back after the step
      matrix  rows                     the probe matrix: one statement of every privilege class per
@@ -102,7 +102,7 @@ JudgeStep(i, e) ==
     /\ (IF e.ret = ret \/ ret = "undefined" THEN TRUE
         \* a REVOKE of something not held may answer either way (the state is judged below)
         ELSE IF ret = "ok|error" /\ e.ret \in {"ok", "error"} THEN TRUE
-        ELSE MM([l |-> i, h |-> e.h, kind |-> "ret", act |-> e.act.name, engine |-> e.ret, msg |-> e.msg, spec |-> ret]))
+        ELSE MM([l |-> i, h |-> e.h, kind |-> "ret", act |-> e.act.name, engine |-> e.ret, msg |-> IF "msg" \in DOMAIN e THEN e.msg ELSE "", spec |-> ret]))
     /\ (IF SameState(e.st) THEN TRUE
         ELSE MM([l |-> i, h |-> e.h, kind |-> "state", act |-> e.act.name, actrec |-> e.act,
                  what |-> DiffWhat(SpecAccts, LogAccts(e.st), edges, LogEdges(e.st)),
@@ -134,7 +134,7 @@ JudgeRows(i, h, rows, pfx) ==
 GSet(gs) == {[a |-> x.a, g |-> RangeOf(x.g)] : x \in RangeOf(gs)}
 RowKey(r) == <<r.u, r.cls, r.db, r.tbl>>
 JudgeReload(i, e) ==
-    /\ (IF e.ret = "ok" THEN TRUE ELSE MM([l |-> i, h |-> e.h, kind |-> "reload-error", msg |-> e.msg]))
+    /\ (IF e.ret = "ok" THEN TRUE ELSE MM([l |-> i, h |-> e.h, kind |-> "reload-error", msg |-> IF "msg" \in DOMAIN e THEN e.msg ELSE ""]))
     \* the same SHOW GRANTS output for every account
     /\ (IF GSet(e.gb) = GSet(e.ga) THEN TRUE
         ELSE MM([l |-> i, h |-> e.h, kind |-> "reload-showgrants",
